@@ -58,21 +58,25 @@ structure InstOK (H : Ser → List Char) (hist : List Bound) (inst : Inst) : Pro
         (∀ n b, lookupB sym0 n = some b → b ∈ hist) ∧
         (∃ b, lookupB sym0 inst.name = some b ∧ b.stamp = inst.stamp) ∧
         v = version H (progOf sym0) id inst.name ∧
-        inst.snaps = (sortedRules (progOf sym0) id inst.name).map (mkSnap sym0)
+        inst.snaps = (sortedRules (progOf sym0) id inst.name).map (mkSnap sym0) ∧
+        inst.watch = watchOf sym0 inst.name
   nover : inst.cver = none → inst.snaps = []
 
 theorem InstOK.mono {H : Ser → List Char} {hist hist' : List Bound} {inst : Inst} (h : InstOK H hist inst)
     (hsub : ∀ b ∈ hist, b ∈ hist') : InstOK H hist' inst := by
   refine ⟨?_, h.nover⟩
   intro v hv
-  obtain ⟨sym0, h1, h2, h3, h4⟩ := h.ok v hv
-  exact ⟨sym0, fun n b hb => hsub b (h1 n b hb), h2, h3, h4⟩
+  obtain ⟨sym0, h1, h2, h3, h4, h5⟩ := h.ok v hv
+  exact ⟨sym0, fun n b hb => hsub b (h1 n b hb), h2, h3, h4, h5⟩
+
+/-- definitions of the program class: those that get a hash rule, and functions of other packages (watched without a rule) -/
+def watchable (d : Def) : Bool := d.trackable || isForeign d
 
 structure Inv (H : Ser → List Char) (s : St) : Prop where
   inj : StampInj s.hist
   symHist : ∀ n b, lookupB s.sym n = some b → b ∈ s.hist
   below : ∀ b ∈ s.hist, b.stamp < s.next
-  track : ∀ b ∈ s.hist, b.d.trackable = true
+  track : ∀ b ∈ s.hist, watchable b.d = true
   insts : ∀ inst ∈ s.insts, InstOK H s.hist inst
 
 theorem inv_init (H : Ser → List Char) : Inv H {} := by
@@ -83,16 +87,84 @@ theorem inv_init (H : Ser → List Char) : Inv H {} := by
   · intro b hb; cases hb
   · intro i hi; cases hi
 
-theorem trackable_of_hist {hist : List Bound} (ht : ∀ b ∈ hist, b.d.trackable = true) {sym0 : Sym}
-    (h0 : ∀ n b, lookupB sym0 n = some b → b ∈ hist) : Trackable (progOf sym0) := by
-  intro n d hd
-  rw [lookup_progOf] at hd
-  cases hb : lookupB sym0 n with
-  | none => simp [hb] at hd
-  | some b =>
-    simp only [hb, Option.map_some, Option.some.injEq] at hd
-    subst hd
-    exact ht b (h0 n b hb)
+/-- a function the traversal descends into has a function rule -/
+theorem mkNode_of_expands {P : Prog} {q r : Name} (h : expands P r = true) :
+    ∃ x, mkNode P q r = some x ∧ x.target = r ∧ (x.kind = .mfn ∨ x.kind = .fn) := by
+  unfold expands at h
+  unfold mkNode
+  cases hl : lookup P r with
+  | none => simp [hl] at h
+  | some d =>
+    cases d with
+    | memento e t rs => exact ⟨_, rfl, rfl, Or.inl rfl⟩
+    | plain b t rs =>
+      cases b with
+      | true => exact ⟨_, rfl, rfl, Or.inr rfl⟩
+      | false => simp [hl] at h
+    | var v => simp [hl] at h
+
+/-- every function of the closure is the target of one of the function rules -/
+theorem mem_closureFns {P : Prog} {f p : Name} (hp : p = f ∨ (ReachN P f p ∧ expands P p = true)) :
+    p ∈ closureFns P f := by
+  unfold closureFns
+  rcases hp with rfl | ⟨hr, he⟩
+  · refine List.mem_map.mpr ⟨rootNode p, List.mem_filter.mpr ⟨?_, by simp [rootNode]⟩, rfl⟩
+    exact (mem_rules_nodeOK ordOK_id).mpr (Or.inl rfl)
+  · cases hr with
+    | direct href =>
+      obtain ⟨x, hx, ht, hk⟩ := mkNode_of_expands (q := f) he
+      refine List.mem_map.mpr ⟨x, List.mem_filter.mpr ⟨?_, ?_⟩, ht⟩
+      · exact (mem_rules_nodeOK ordOK_id).mpr (Or.inr ⟨f, Or.inl rfl, ht ▸ href, ht ▸ hx⟩)
+      · rcases hk with hk | hk <;> simp [hk]
+    | @step h _ hrh heh href =>
+      obtain ⟨x, hx, ht, hk⟩ := mkNode_of_expands (q := h) he
+      refine List.mem_map.mpr ⟨x, List.mem_filter.mpr ⟨?_, ?_⟩, ht⟩
+      · exact (mem_rules_nodeOK ordOK_id).mpr (Or.inr ⟨h, Or.inr ⟨hrh, heh⟩, ht ▸ href, ht ▸ hx⟩)
+      · rcases hk with hk | hk <;> simp [hk]
+
+/-- **no watched symbol was re-bound ⇒ the current program binds every reference without a rule as the recorded one did** -/
+theorem no_change_watch {hist : List Bound} (hinj : StampInj hist) (hW : ∀ b ∈ hist, watchable b.d = true)
+    {sym sym0 : Sym} {f : Name}
+    (hs : ∀ n b, lookupB sym n = some b → b ∈ hist) (h0 : ∀ n b, lookupB sym0 n = some b → b ∈ hist)
+    (hnw : ∀ w ∈ watchOf sym0 f, watchChanged sym w = false) :
+    WatchAgree (progOf sym) (progOf sym0) f := by
+  intro p r hp href hmk
+  rw [lookup_progOf, lookup_progOf]
+  obtain ⟨d, hd, hr⟩ := href
+  -- the reference resolves to a function of another package in the recorded program
+  cases hb0 : lookupB sym0 r with
+  | none =>
+    have : lookup (progOf sym0) r = none := by rw [lookup_progOf, hb0]; rfl
+    simp [mkNode, this] at hmk
+  | some b0 =>
+    have hl : lookup (progOf sym0) r = some b0.d := by rw [lookup_progOf, hb0]; rfl
+    have hfor : isForeign b0.d = true := by
+      have hw := hW b0 (h0 r b0 hb0)
+      unfold mkNode at hmk
+      rw [hl] at hmk
+      cases hd0 : b0.d with
+      | memento e t rs => simp [hd0] at hmk
+      | plain b t rs =>
+        cases b with
+        | true => simp [hd0] at hmk
+        | false => rfl
+      | var v =>
+        cases v with
+        | some v => simp [hd0] at hmk
+        | none => simp [watchable, Def.trackable, isForeign, hd0] at hw
+    have hmem : (r, b0.stamp) ∈ watchOf sym0 f := by
+      unfold watchOf
+      refine List.mem_flatMap.mpr ⟨p, mem_closureFns hp, ?_⟩
+      rw [hd]
+      refine List.mem_filterMap.mpr ⟨r, hr, ?_⟩
+      simp [hb0, hfor]
+    have hnc := hnw _ hmem
+    unfold watchChanged at hnc
+    cases hb : lookupB sym r with
+    | none => simp [hb] at hnc
+    | some b =>
+      simp only [hb, Bool.not_eq_false', beq_iff_eq] at hnc
+      rw [hinj b (hs _ _ hb) b0 (h0 _ _ hb0) hnc]
 
 /-- what a collected rule says about its target -/
 theorem mkNode_cases {P : Prog} {p r : Name} {x : Node} (h : mkNode P p r = some x) :
@@ -193,19 +265,23 @@ theorem inv_recompute {H : Ser → List Char} {s : St} (h : Inv H s) {i : Nat} {
   · refine ⟨?_, ?_⟩
     · intro v hv
       simp only [Option.some.injEq] at hv
-      exact ⟨s.sym, h.symHist, hroot, hv.symm, rfl⟩
+      exact ⟨s.sym, h.symHist, hroot, hv.symm, rfl, rfl⟩
     · intro hv; simp at hv
   · exact h.insts y hy
 
 /-- **no recorded rule changed ⇒ the recorded version is the fresh version** -/
 theorem no_change_version {H : Ser → List Char} {s : St} (hinv : Inv H s) {inst : Inst} (hmem : inst ∈ s.insts)
     (hlive : live s inst) {c : List Char} (hc : inst.cver = some c)
-    (hnc : inst.snaps.any (didChange s.sym) = false) :
+    (hnc : inst.snaps.any (didChange s.sym) = false) (hnw : inst.watch.any (watchChanged s.sym) = false) :
     version H (progOf s.sym) id inst.name = c := by
-  obtain ⟨sym0, h0, ⟨b0, hb0, hst0⟩, hv, hsn⟩ := (hinv.insts inst hmem).ok c hc
+  obtain ⟨sym0, h0, ⟨b0, hb0, hst0⟩, hv, hsn, hwt⟩ := (hinv.insts inst hmem).ok c hc
   obtain ⟨b, hb, hst, _⟩ := hlive
   rw [hv]
-  apply version_congr_closure H (trackable_of_hist hinv.track h0)
+  apply version_congr_watch H
+  · apply no_change_watch hinv.inj hinv.track hinv.symHist h0
+    intro w hw
+    have := List.any_eq_false.mp hnw w (by rw [hwt]; exact hw)
+    simpa using this
   apply no_change_agree hinv.inj hinv.symHist h0 ⟨b, b0, hb, hb0, hst.trans hst0.symm⟩
   intro x hx
   have hx' : mkSnap sym0 x ∈ inst.snaps := by
@@ -250,8 +326,11 @@ theorem query_fresh {H : Ser → List Char} {s : St} (hinv : Inv H s) {i : Nat} 
               simp [this] at hcond
             | some c =>
               simp only
-              have hnc : inst.snaps.any (didChange s.sym) = false := by simpa using hany
-              rw [no_change_version hinv hmem ⟨⟨st, _⟩, hb, hst, hm⟩ hcv hnc]
+              have hboth : (inst.snaps.any (didChange s.sym) || inst.watch.any (watchChanged s.sym)) = false := by
+                simpa using hany
+              have hnc : inst.snaps.any (didChange s.sym) = false := (Bool.or_eq_false_iff.mp hboth).1
+              have hnw : inst.watch.any (watchChanged s.sym) = false := (Bool.or_eq_false_iff.mp hboth).2
+              rw [no_change_version hinv hmem ⟨⟨st, _⟩, hb, hst, hm⟩ hcv hnc hnw]
         · simp [recompute]
 
 theorem inv_query {H : Ser → List Char} {s : St} (hinv : Inv H s) (i : Nat) : Inv H (query H s i).1 := by
@@ -298,7 +377,7 @@ theorem lookupB_hist_bind {s : St} {H : Ser → List Char} (hinv : Inv H s) (n :
   · simp only [h, if_false] at hc
     exact List.mem_cons_of_mem _ (hinv.symHist m c hc)
 
-theorem inv_define {H : Ser → List Char} {s : St} (hinv : Inv H s) (n : Name) (d : Def) (hd : d.trackable = true)
+theorem inv_define {H : Ser → List Char} {s : St} (hinv : Inv H s) (n : Name) (d : Def) (hd : watchable d = true)
     (extra : List Inst) (hextra : ∀ y ∈ extra, y.cver = none ∧ y.snaps = []) (g : Nat) :
     Inv H { s with sym := bind s.sym n ⟨s.next, d⟩, next := s.next + 1, hist := ⟨s.next, d⟩ :: s.hist, gen := g,
                    insts := s.insts ++ extra } := by
@@ -326,10 +405,13 @@ theorem inv_define {H : Ser → List Char} {s : St} (hinv : Inv H s) (n : Name) 
 theorem inv_step {H : Ser → List Char} {s : St} (hinv : Inv H s) (e : Ev) : Inv H (step H s e).1 := by
   cases e with
   | defMemento n ex tok refs =>
-    exact inv_define hinv n (.memento ex tok refs) rfl [⟨n, s.next, none, []⟩]
+    exact inv_define hinv n (.memento ex tok refs) rfl [⟨n, s.next, none, [], []⟩]
       (fun y hy => by rcases List.mem_singleton.mp hy with rfl; exact ⟨rfl, rfl⟩) (s.gen + 1)
   | defPlain n tok refs =>
     have := inv_define hinv n (.plain true tok refs) rfl [] (fun y hy => by cases hy) s.gen
+    simpa [step] using this
+  | defForeign n tok =>
+    have := inv_define hinv n (.plain false tok []) rfl [] (fun y hy => by cases hy) s.gen
     simpa [step] using this
   | setVar n v =>
     have := inv_define hinv n (.var (some v)) rfl [] (fun y hy => by cases hy) s.gen
